@@ -398,7 +398,7 @@ func (fr *frame) enterLoop(li *loopInfo, b *ssa.BasicBlock) {
 	// havoc
 	li.hav = &havocProv{tag: fr.tag(fmt.Sprintf("L%d", li.ord)), cache: map[string]string{}, prev: li.entry, startN: u.nfresh}
 	ws := fr.st.ws
-	fr.st = &state{over: map[string]string{}, base: li.hav, ws: ws}
+	fr.st = &state{over: map[string]string{}, base: li.hav, ws: ws, u: u}
 	for _, phi := range phis {
 		srt := u.sortOf(phi.Type())
 		n := u.declConst(fr.tag(phi.Name()+"_"+phi.Comment), srt)
